@@ -50,6 +50,13 @@ JudgeRemove(e) ==
              Tag(count' = exp.count, "Remove.count") \o Tag(last' = exp.last, "Remove.last")
         ELSE <<>>
 
+(* group fork switch: the observed stores are what remove-down-to-ancestor + adds give *)
+JudgeFork(e) ==
+  LET exp == IF store[e.g].present THEN ForkPost(store, hidx, count, last, e.g, e.ids)
+             ELSE [store |-> store, hidx |-> hidx, count |-> count, last |-> last]
+  IN Tag(store' = exp.store, "Fork.store") \o Tag(hidx' = exp.hidx, "Fork.hidx") \o
+     Tag(count' = exp.count, "Fork.count") \o Tag(last' = exp.last, "Fork.last")
+
 JudgeRestart(e) ==
   Tag(<<store', hidx', count', last'>> = <<store, hidx, count, last>>, "Restart.changed")
 
@@ -73,6 +80,7 @@ Judge(e) ==
   (CASE e.event = "Add"     -> JudgeAdd(e)
      [] e.event = "Remove"  -> JudgeRemove(e)
      [] e.event = "Restart" -> JudgeRestart(e)
+     [] e.event = "Fork"    -> JudgeFork(e)
      [] e.event = "Reset"   -> <<>>
      [] OTHER               -> <<"unknown-event">>) \o JudgeInv(e)
 
